@@ -4,9 +4,9 @@ import wg_lib
 META = {
     "property_id": "C01",
     "level": "proof",
-    "technique": "Coq: inductive invariant over all schedules of an interleaving machine of SelectableWaitGroup (any number of goroutines, any programs), executable trace monitor c01_ok; tied to the source by a regenerated IR listing (eq_refl) and by deterministic schedule replay on the instrumented real code judged in-kernel by the same monitor",
+    "technique": "Coq: inductive invariant over all schedules of an interleaving machine of SelectableWaitGroup (any number of goroutines, any programs), executable trace monitor c01_ok; tied to the source by an IR term regenerated from the source (eq_refl) whose Coq denotation is proved to be the machine and by deterministic schedule replay on the instrumented real code judged in-kernel by the same monitor",
     "design_ref": "DESIGN.md §4 C01",
-    "level_text": "Proof: WGProofs.v shows by an inductive invariant over the schedule that for every number of goroutines, every client program and every schedule the trace of the machine modelling Add/Wait (one micro-step per atomic load / compare-and-swap / close) satisfies the monitor c01_ok: a channel returned by Wait is closed only if the conservative lower bound of the count was <= 0 at some position since the Wait call; WGSpecProofs.v shows for every trace that acceptance by c01_ok implies that sentence stated over positions (c01_spec) (Props/C01.v; closed under the global context). The machine is tied to the current source by (T) the IR listing of the shared-memory operations regenerated from gsync/selectable_wait_group.go = the hand copy (eq_refl) and (C) replay of enumerated and random schedules on the real code under a baton-passing scheduler: every recorded trace is judged by c01_ok inside Coq and compared step by step with the machine's trace.",
+    "level_text": "Proof: WGProofs.v shows by an inductive invariant over the schedule that for every number of goroutines, every client program and every schedule the trace of the machine modelling Add/Wait (one micro-step per atomic load / compare-and-swap / close) satisfies the monitor c01_ok: a channel returned by Wait is closed only if the conservative lower bound of the count was <= 0 at some position since the Wait call; WGSpecProofs.v shows that on every well-formed trace (checked executably on each recorded trace, proved for machine traces) c01_ok is exactly that sentence stated over positions (c01_spec) (Props/C01.v; closed under the global context). The machine is tied to the current source by (T) the IR term regenerated from gsync/selectable_wait_group.go = the hand copy (eq_refl), whose small-step denotation (Base/ConcIR.v) is proved to have the same memory and trace as the machine for every program and schedule (WGDenote.v) and (C) replay of enumerated and random schedules on the real code under a baton-passing scheduler: every recorded trace is judged by c01_ok inside Coq and compared step by step with the machine's trace.",
     "level_note": "Trusted: Coq kernel + vm_compute; interleaving semantics with sequentially consistent atomics; the instrumenter/translator xlate_conc, the vsched scheduler and the harness; the free-running Go scheduler is only exercised by a -race stress run (partial). No axioms.",
 }
 
